@@ -449,8 +449,9 @@ func (n *Nodis) Rename(key, dstKey string) error {
 			n.store.mu.Unlock()
 		}
 		dstMeta.setValue(meta.value)
+		dstMeta.key.Expiration = meta.key.Expiration
 		n.signalModifiedKey(key, meta)
-		n.signalModifiedKey(key, dstMeta)
+		n.signalModifiedKey(dstKey, dstMeta)
 		n.notify(func() []patch.Op {
 			return []patch.Op{{Type: patch.OpTypeRename, Data: &patch.OpRename{Key: key, DstKey: dstKey}}}
 		})
@@ -477,7 +478,7 @@ func (n *Nodis) RenameNX(key, dstKey string) error {
 		n.store.metadata.Set(dstKey, dstMeta)
 		n.store.mu.Unlock()
 		n.signalModifiedKey(key, meta)
-		n.signalModifiedKey(key, dstMeta)
+		n.signalModifiedKey(dstKey, dstMeta)
 		n.notify(func() []patch.Op {
 			return []patch.Op{{Type: patch.OpTypeRename, Data: &patch.OpRename{Key: key, DstKey: dstKey}}}
 		})
